@@ -6,6 +6,7 @@ import TssVerif.Core.Engine2
 import TssVerif.Core.Ckd
 import TssVerif.Core.Primes
 import TssVerif.Core.Blame
+import TssVerif.Core.BlameEc
 /-! Line-protocol ops for signing arithmetic. -/
 namespace TssVerif.OpsSign
 open TssVerif Wire OpsCrypto Sign
@@ -105,6 +106,35 @@ def run (op : String) (args : List String) : Option String :=
         | some (idx, blamed) => "error culprits=" ++ (if blamed then toString idx else "_")
         | none => "pass")
     | _, _ => none
+  | "ec_kg_round2", [own, msgs] =>
+    -- msgs: `idx/N/Ntilde/h1/h2/dln1 parts/dln2 parts` separated by `;` (parts: hex byte strings)
+    let pMsg (s : String) : Option BlameEc.R1Msg :=
+      match s.splitOn "/" with
+      | [idx, n, nt, h1, h2, d1, d2] =>
+        match pDec idx, pNat n, pNat nt, pNat h1, pNat h2, pList pBytes d1, pList pBytes d2 with
+        | some idx, some n, some nt, some h1, some h2, some d1, some d2 => some ⟨idx, n, nt, h1, h2, d1, d2⟩
+        | _, _, _, _, _, _, _ => none
+      | _ => none
+    match pDec own, (msgs.splitOn ";").mapM pMsg with
+    | some own, some msgs =>
+      some ((BlameEc.round2 Sha512.sha512_256 Ops16.curParse own msgs).render fun
+        | .pass => "pass"
+        | .fail why cs => "fail culprits=" ++ rList toString cs ++ " " ++ why.replace " " "-")
+    | _, _ => none
+  | "ec_kg_round3", [t, ownId, ssid, ownNt, ownH1, ownH2, noMod, noFac, peers] =>
+    -- peers: `idx/commitment/N/decommitment/mod proof parts/share/fac proof parts` separated by `;`
+    let pPeer (s : String) : Option BlameEc.R2Peer :=
+      match s.splitOn "/" with
+      | [idx, c, n, d, mp, sh, fp] =>
+        match pDec idx, pNat c, pNat n, pList pNat d, pList pBytes mp, pNat sh, pList pBytes fp with
+        | some idx, some c, some n, some d, some mp, some sh, some fp => some ⟨idx, c, n, d, mp, sh, fp⟩
+        | _, _, _, _, _, _, _ => none
+      | _ => none
+    match pDec t, pNat ownId, pBytes ssid, pNat ownNt, pNat ownH1, pNat ownH2, (peers.splitOn ";").mapM pPeer with
+    | some t, some ownId, some ssid, some ownNt, some ownH1, some ownH2, some peers =>
+      some ((BlameEc.round3 Secp256k1.curve Sha512.sha512_256 Zk.cur ⟨true⟩ (noMod == "1") (noFac == "1") t ownId ssid
+        ownNt ownH1 ownH2 peers).render fun cs => "culprits=" ++ rList toString cs)
+    | _, _, _, _, _, _, _ => none
   | "engine2_trace", [proto, role, nOld, nNew, self, evs] =>
     match Engine2.findProto proto, pDec nOld, pDec nNew, pDec self with
     | some p, some nOld, some nNew, some self =>
